@@ -49,7 +49,7 @@ def main(argv):
         # every fourth circuit keeps its qubits in two quantum registers and its classical bits in two classical registers
         split = (1 + len(instrs) % max(1, nphys - 1), 1) if (nphys >= 2 and len(instrs) % 4 == 1) else ("reversed" if (nphys >= 2 and len(instrs) % 4 == 3) else None)
         log, res, psi = sc.run_spy(cls, labels, instrs, nphys, sc.dev_plain(nphys), psi0, gates=noise_free_gates, shots=1 + len(instrs) % 3, split=split)
-        ideal = sc.qiskit_marginals(labels, instrs, meas, psi0)
+        ideal = sc.qiskit_marginals(labels, instrs, meas, np.asarray(psi0, complex) / np.linalg.norm(psi0))      # Born probabilities of the state psi0 describes
         if set(res) != set(ideal): return "outcome keys differ from the 2^m strings of the measured qubits"
         d = max(abs(res[k] - ideal[k]) for k in ideal)
         if d > 1e-9: return "probabilities differ from the ideal Born marginals by %.3g" % d
@@ -108,6 +108,10 @@ def main(argv):
             body = sc.rand_circuit(rng, labels, int(rng.integers(2, 30 if ck.tier == "thorough" else 16)), adjacent=not binary)
             instrs, meas = sc.add_measures(rng, body, labels)
             psi0 = rng.normal(size=2 ** n) + 1j * rng.normal(size=2 ** n); psi0 /= np.linalg.norm(psi0)
+            # "all initial states": also states normalised to six decimals only, states off by a few 1e-7, and states of norm 2
+            if t % 4 == 1: psi0 = np.round(psi0, 6)
+            elif t % 4 == 2: psi0 = psi0 * (1 + 3e-7 * (1 + t % 5))
+            elif t % 8 == 3: psi0 = psi0 * 2
             try:
                 why = run_case(cls, labels, nphys, instrs, meas, psi0)
             except Exception as e:  # noqa
